@@ -45,6 +45,7 @@ func HProtectFrame() {
 	k := VNewKey(VGenKeyMaterial(suite))
 	m := message.VGenMessage(3, tier)
 	objs := append(message.IKEPayloadContainer{}, m.Payloads...)
+	callers := m.Payloads // the slice the caller handed to the message (same backing array)
 	snap := message.VClonePayloads(m.Payloads)
 	hdr := *m.IKEHeader
 	tok := vr.FrameBegin(objs)
@@ -57,6 +58,14 @@ func HProtectFrame() {
 	vr.Assert("c20.protect-frame.header", message.VEqHeader(&hdr, m.IKEHeader))
 	vr.Assert("c20.protect-frame.list", len(m.Payloads) == 1 && m.Payloads[0].Type() == message.TypeSK)
 	vr.Assert("c20.protect-frame.payloads", message.VEqPayloadsExact(snap, objs))
+	// the container the caller still holds lists the same payload objects as before
+	same := len(callers) == len(objs)
+	for i := range objs {
+		if i < len(callers) {
+			same = vr.All(same, callers[i] == objs[i])
+		}
+	}
+	vr.Assert("c20.protect-frame.callers-container", same)
 	vr.Havoc(b)
 	vr.Assert("c20.protect-frame.payloads-after-havoc", message.VEqPayloadsExact(snap, objs))
 }
